@@ -1,2 +1,233 @@
-import CC.Model.MNA
-import CC.Spec.Circuit
+/-
+  Property C01 — the steady-state solution obeys Kirchhoff's laws and every element law.
+
+  Model: CC/Model/{Net,MNA}.lean (mirrors node_analysis.py, bias_point_analysis.py,
+  solution.py, label_mapping.py, network.py, elements.py).  Spec: CC/Spec/Circuit.lean.
+  All theorems hold for every network (any number of nodes and branches, parallel branches,
+  either terminal order, any reference node, any labels and any label order `LabelOrd`),
+  over every field `K` — in particular ℂ and the driver's Gaussian rationals.
+  `numpy.linalg.solve` is a parameter: `x` is any vector with `A·x = b`.
+-/
+import CC.Proofs.Complete
+import Mathlib.Algebra.Order.Field.Rat
+set_option linter.unusedSectionVars false
+
+namespace CC
+variable {L K : Type} [DecidableEq L] [LabelOrd L] [Field K] [DecidableEq K]
+
+theorem reportOf_v (N : Net L K) (x : List K) (hids : N.ids.Nodup) {b : Branch L K}
+    (hb : b ∈ N.branches) : (N.reportOf x).v b.id = N.vOf (N.solOf x) b := by
+  simp [Net.reportOf, get?_of_mem N hids hb]
+
+theorem reportOf_i (N : Net L K) (x : List K) (hids : N.ids.Nodup) {b : Branch L K}
+    (hb : b ∈ N.branches) : (N.reportOf x).i b.id = N.curOf (N.solOf x) b := by
+  simp [Net.reportOf, get?_of_mem N hids hb]
+
+theorem kclResidual_report (N : Net L K) (x : List K) (wf : N.WF) (n : L) :
+    kclResidual N (N.reportOf x) n
+      = (N.branches.map fun b => b.dir n * N.J (N.solOf x) b).sum := by
+  unfold kclResidual
+  apply congrArg; apply List.map_congr_left
+  intro b hb
+  rw [reportOf_i N x wf.ids_nodup hb, phys_curOf, incidence_eq_dir b n (wf.no_self_loop b hb)]
+
+/-- **C01 (soundness).**  Whatever vector satisfies the matrix equation the code builds,
+the accessors never fail on the network's own labels and ids, and what they report solves
+the circuit: reference at zero, voltages are potential differences, every element law
+holds in the library's reference direction, and Kirchhoff's current law holds at every
+node — the reference node included. -/
+theorem C01_sound (N : Net L K) (x : List K) (wf : N.WF)
+    (hx : x.length = N.nodes.length + N.vsIds.length)
+    (h : matVec N.mnaA x = N.mnaB) :
+    (∀ n ∈ N.allLabels, N.potential x n = .ok ((N.reportOf x).pot n)) ∧
+    (∀ b ∈ N.branches, N.voltage x b.id = .ok ((N.reportOf x).v b.id) ∧
+                        N.current x b.id = .ok ((N.reportOf x).i b.id)) ∧
+    CircuitEqs N (N.reportOf x) := by
+  obtain ⟨rowsN, rowsV⟩ := (matVec_iff_rows N wf.ids_nodup x hx).mp h
+  set s := N.solOf x with hs
+  have hkclNode : ∀ n ∈ N.nodes, kclResidual N (N.reportOf x) n = 0 := by
+    intro n hn
+    rw [kclResidual_report N x wf, kcl_identity N s wf.ids_nodup wf.no_self_loop n hn, rowsN n hn, sub_self]
+  refine ⟨?_, ?_, ?_⟩
+  · intro n hn
+    exact potential_ok N x n ((mem_allLabels_iff N wf.zero_mem n).mp hn)
+  · intro b hb
+    rw [reportOf_v N x wf.ids_nodup hb, reportOf_i N x wf.ids_nodup hb]
+    exact ⟨voltage_ok N x wf.ids_nodup b hb, current_ok N x wf.ids_nodup b hb⟩
+  · refine ⟨?_, ?_, ?_, ?_⟩
+    · simp [Net.reportOf, Net.pot]
+    · intro b hb
+      unfold voltResidual
+      rw [reportOf_v N x wf.ids_nodup hb]
+      simp [Net.reportOf, Net.vOf]
+    · intro b hb
+      rw [reportOf_v N x wf.ids_nodup hb, reportOf_i N x wf.ids_nodup hb]
+      apply law_of_rows
+      intro hv
+      have hmem : b ∈ N.vsSorted :=
+        (vsSorted_perm N wf.ids_nodup).mem_iff.mpr (List.mem_filter.mpr ⟨hb, hv⟩)
+      have := rowsV b hmem
+      rw [rowVS_eq N s b hb (wf.no_self_loop b hb)] at this
+      exact this
+    · intro n hn
+      have hn' := (mem_allLabels_iff N wf.zero_mem n).mp hn
+      by_cases hz : n = N.zero
+      · subst hz
+        have hall := sum_kcl_all_labels N (fun b => N.J s b)
+        rw [sum_labels_split N wf.zero_mem] at hall
+        have hnodes : (N.nodes.map fun n => (N.branches.map fun b => incidence b n * N.J s b).sum).sum = 0 := by
+          apply List.sum_eq_zero
+          intro y hy
+          obtain ⟨m, hm, rfl⟩ := List.mem_map.mp hy
+          have := hkclNode m hm
+          rw [kclResidual_report N x wf] at this
+          rw [← this]
+          apply congrArg; apply List.map_congr_left
+          intro b hb; rw [incidence_eq_dir b m (wf.no_self_loop b hb)]
+        rw [hnodes, add_zero] at hall
+        rw [kclResidual_report N x wf, ← hall]
+        apply congrArg; apply List.map_congr_left
+        intro b hb; rw [incidence_eq_dir b _ (wf.no_self_loop b hb)]
+      · exact hkclNode n ((mem_nodes_iff N n).mpr ⟨hn', hz⟩)
+
+/-- **C01 (reference node).**  Currents balance at the reference node although it has no
+row in the matrix: its balance is minus the sum of all other rows. -/
+theorem C01_kcl_reference (N : Net L K) (x : List K) (wf : N.WF)
+    (hx : x.length = N.nodes.length + N.vsIds.length)
+    (h : matVec N.mnaA x = N.mnaB) :
+    kclResidual N (N.reportOf x) N.zero = 0 :=
+  (C01_sound N x wf hx h).2.2.kcl N.zero (by simp [Net.allLabels])
+
+/-- **C01 (the four current cases).**  The per-kind relation between reported voltage and
+reported current, written out: an ideal voltage source fixes the voltage, an impedance
+obeys `v = Z·i`, an admittance `i = Y·v`, an ideal current source fixes the current, and a
+linear source reports its current in generator direction, `i = −(I_N + Y·v)`. -/
+theorem C01_current_cases (N : Net L K) (x : List K) (wf : N.WF)
+    (hx : x.length = N.nodes.length + N.vsIds.length)
+    (h : matVec N.mnaA x = N.mnaB) (b : Branch L K) (hb : b ∈ N.branches) :
+    let v := (N.reportOf x).v b.id
+    let i := (N.reportOf x).i b.id
+    match b.e with
+    | .norton Z V => if Z = 0 then v = V else if V = 0 then v = Z * i else i = -(V / Z + v / Z)
+    | .thevenin Y I => if Y = 0 then i = I else if I = 0 then i = Y * v else i = -(I + Y * v) := by
+  have hlaw := (C01_sound N x wf hx h).2.2.law b hb
+  intro v i
+  cases he : b.e with
+  | norton Z V =>
+    rw [he] at hlaw
+    by_cases hZ : Z = 0
+    · simp only [Elem.lawResidual, hZ, if_true] at hlaw ⊢; exact sub_eq_zero.mp hlaw
+    · by_cases hV : V = 0
+      · simp only [Elem.lawResidual, hZ, hV, if_true, if_false] at hlaw ⊢; exact sub_eq_zero.mp hlaw
+      · simp only [Elem.lawResidual, hZ, hV, if_false] at hlaw ⊢
+        field_simp
+        linear_combination hlaw
+  | thevenin Y I =>
+    rw [he] at hlaw
+    by_cases hY : Y = 0
+    · simp only [Elem.lawResidual, hY, if_true] at hlaw ⊢; exact sub_eq_zero.mp hlaw
+    · by_cases hI : I = 0
+      · simp only [Elem.lawResidual, hY, hI, if_true, if_false] at hlaw ⊢; exact sub_eq_zero.mp hlaw
+      · simp only [Elem.lawResidual, hY, hI, if_false] at hlaw ⊢
+        linear_combination hlaw
+
+/-- **C01 (power).**  Reported power is `V · conj(I)` of the reported voltage and current. -/
+theorem C01_power (conj : K → K) (N : Net L K) (x : List K) (wf : N.WF) (b : Branch L K)
+    (hb : b ∈ N.branches) :
+    N.power conj x b.id = .ok ((N.reportOf x).v b.id * conj ((N.reportOf x).i b.id)) := by
+  unfold Net.power
+  rw [voltage_ok N x wf.ids_nodup b hb, current_ok N x wf.ids_nodup b hb,
+    reportOf_v N x wf.ids_nodup hb, reportOf_i N x wf.ids_nodup hb]
+  rfl
+
+/-- **C01 (completeness).**  Every solution of the circuit equations, packed through the
+alphabetic index maps, satisfies the matrix equation the code solves: the voltage-source
+rows and the index maps lose nothing. -/
+theorem C01_complete (N : Net L K) (R : Report L K) (wf : N.WF) (hR : CircuitEqs N R) :
+    matVec N.mnaA (N.pack R.toSol) = N.mnaB :=
+  complete_rows N R wf hR
+
+/-- **C01 (uniqueness).**  For a well-posed network (the source-free circuit has only the
+zero solution) any two solutions of the circuit equations agree on every node potential,
+branch voltage and branch current: the reported quantities are *the* solution. -/
+theorem C01_unique (N : Net L K) (hids : N.ids.Nodup) (hw : WellPosed N)
+    (R S : Report L K) (hR : CircuitEqs N R) (hS : CircuitEqs N S) : R.AgreeOn N S :=
+  unique_of_wellposed N hids hw R S hR hS
+
+/-- **C01 (the matrix equation of a well-posed network has at most one solution).** -/
+theorem C01_matrix_unique (N : Net L K) (wf : N.WF) (hw : WellPosed N) (x y : List K)
+    (hx : x.length = N.nodes.length + N.vsIds.length)
+    (hy : y.length = N.nodes.length + N.vsIds.length)
+    (h1 : matVec N.mnaA x = N.mnaB) (h2 : matVec N.mnaA y = N.mnaB) : x = y := by
+  have hids := wf.ids_nodup
+  have sx := (C01_sound N x wf hx h1).2.2
+  have sy := (C01_sound N y wf hy h2).2.2
+  obtain ⟨hp, hb⟩ := C01_unique N hids hw _ _ sx sy
+  rw [pack_solOf N hids x hx, pack_solOf N hids y hy]
+  congr 1
+  · apply List.map_congr_left
+    intro n hn
+    obtain ⟨hl, hz⟩ := (mem_nodes_iff N n).mp hn
+    have := hp n ((mem_allLabels_iff N wf.zero_mem n).mpr hl)
+    simpa [Net.reportOf, Net.pot, hz] using this
+  · apply List.map_congr_left
+    intro b hbm
+    have hbv : b ∈ N.vs := (vsSorted_perm N hids).mem_iff.mp hbm
+    obtain ⟨hbb, hvs⟩ := List.mem_filter.mp hbv
+    have := (hb b hbb).2
+    rw [reportOf_i N x hids hbb, reportOf_i N y hids hbb] at this
+    simpa [Net.curOf, hvs] using this
+
+/-- Existence (`det A ≠ 0` for well-posed networks) is not yet proved; it needs the
+homogeneous version of the argument above transported to `N.zeroSources`. -/
+def C01_solvable_statement : Prop :=
+  ∀ (N : Net String ℚ), N.WF → WellPosed N →
+    ∀ x : List ℚ, x.length = N.nodes.length + N.vsIds.length →
+      matVec N.mnaA x = (N.mnaB.map fun _ => (0 : ℚ)) → x = x.map fun _ => (0 : ℚ)
+
+/-! ### non-vacuity: a concrete network meets the hypotheses -/
+
+/-- `V(1,0) = 10 V`, `R1(1,2) = 5 Ω`, `R2(2,0) = 1/5 S` with reference node `0` -/
+def exampleNet : Net String ℚ :=
+  { zero := "0",
+    branches := [
+      { n1 := "1", n2 := "0", id := "V", e := .norton 0 10 },
+      { n1 := "1", n2 := "2", id := "R1", e := .norton 5 0 },
+      { n1 := "2", n2 := "0", id := "R2", e := .thevenin (1/5) 0 } ] }
+
+theorem exampleNet_wf : exampleNet.WF := by
+  refine ⟨by decide, ?_, ?_⟩
+  · rw [mem_nodeLabels]; right
+    exact ⟨{ n1 := "1", n2 := "0", id := "V", e := .norton 0 10 }, by simp [exampleNet], Or.inr rfl⟩
+  · intro b hb
+    simp only [exampleNet, List.mem_cons, List.mem_nil_iff, or_false] at hb
+    rcases hb with rfl | rfl | rfl <;> decide
+
+/-- its solution: φ₁ = 10, φ₂ = 5, 1 A through the resistors, −1 A through the source -/
+def exampleReport : Report String ℚ :=
+  { pot := fun n => if n = "1" then 10 else if n = "2" then 5 else 0
+    v := fun id => if id = "V" then 10 else 5
+    i := fun id => if id = "V" then -1 else 1 }
+
+theorem exampleReport_solves : CircuitEqs exampleNet exampleReport := by
+  refine ⟨by decide, ?_, ?_, ?_⟩
+  · intro b hb
+    simp only [exampleNet, List.mem_cons, List.mem_nil_iff, or_false] at hb
+    rcases hb with rfl | rfl | rfl <;> simp [voltResidual, exampleReport] <;> norm_num
+  · intro b hb
+    simp only [exampleNet, List.mem_cons, List.mem_nil_iff, or_false] at hb
+    rcases hb with rfl | rfl | rfl <;> simp [Elem.lawResidual, exampleReport] <;> norm_num
+  · intro n hn
+    simp only [exampleNet, Net.allLabels, List.map_cons, List.map_nil, List.cons_append,
+      List.nil_append, List.mem_cons, List.mem_nil_iff, or_false] at hn
+    rcases hn with rfl | rfl | rfl | rfl | rfl | rfl | rfl <;>
+      simp [kclResidual, exampleNet, incidence, Elem.physCurrent, Elem.isLossy, Elem.kind, exampleReport] <;>
+      norm_num
+
+/-- the hypotheses of `C01_sound` are satisfiable: the example network has a solution vector -/
+example : ∃ x : List ℚ, x.length = exampleNet.nodes.length + exampleNet.vsIds.length ∧
+    matVec exampleNet.mnaA x = exampleNet.mnaB :=
+  ⟨exampleNet.pack exampleReport.toSol, pack_length _ exampleNet_wf.ids_nodup _,
+    C01_complete _ _ exampleNet_wf exampleReport_solves⟩
+
+end CC
